@@ -7,6 +7,8 @@ sc_mpi_comm_attach_node_comms
   attach_explicit            node = rank / ppn, offset = rank % ppn and the (colour, key) arguments of the two MPI_Comm_split calls
   attach_unequal             maxintrasize != minintrasize (node communicators of different size are not attached)
   attach_split_type          key of MPI_Comm_split_type, (colour, key) of the internode MPI_Comm_split
+  attach_decisions           the whole function: which communicators are created / freed and whether the attribute is set, per
+                             (processes_per_node, maxintrasize, minintrasize); exactly one return statement (unequal node sizes)
 sc_shmem.c
   write_start_basic / write_start_window    the return value per flavour; window: which of MPI_Win_unlock / MPI_Barrier / MPI_Win_lock is called
                                             for which intrarank, the barrier's communicator, and the ORDER of these calls on the
@@ -90,6 +92,40 @@ def register(GROUPS, c2g, incs, REPO, HERE, STRUCTS, Group):
         t, i = sl.emit_expr(csp["inner"][2], "attach_split_type_colour", A, params=("intrarank", "rank"), want_params=["intrarank", "rank"])
         g.add(t, i)
         t, i = sl.emit_expr(csp["inner"][3], "attach_split_type_interkey", A, params=("intrarank", "rank"), want_params=["intrarank", "rank"])
+        g.add(t, i)
+
+        # ---- the decisions of the attach function as a whole: which communicators are created / freed and whether the attribute is set, as
+        # a function of (processes_per_node, maxintrasize, minintrasize).  Strict: exactly ONE return statement (nodes of unequal size), the
+        # keyval registration in front, the two slots filled as [0] = intranode, [1] = internode; any other call or early return fails the group.
+        body = flat(F)
+        rets = sl.find_nodes(F, lambda n: n.get("kind") == "ReturnStmt")
+        if len(rets) != 1 or not sl.find_nodes(uneq["inner"][1], lambda n: n is rets[0]):
+            raise c2g.Unsupported("attach: %d return statements, expected 1 (node communicators of unequal size)" % len(rets))
+        reg = [n for n in body if n.get("kind") == "IfStmt" and sl.refs(n["inner"][0]) == {"sc_mpi_node_comm_keyval"}]
+        if len(reg) != 1 or len(reg[0]["inner"]) != 2:
+            raise c2g.Unsupported("attach: keyval registration")
+        stores = [n for n in body if n.get("kind") == "BinaryOperator" and n.get("opcode") == "=" and
+                  c2g.skip_parens(n["inner"][0]).get("kind") == "ArraySubscriptExpr"]
+        slots = []
+        for n in stores:
+            lhs = c2g.skip_parens(n["inner"][0])
+            idx = sl.strip(lhs["inner"][1])
+            slots.append((sorted(sl.refs(lhs["inner"][0])), idx.get("value"), sorted(sl.refs(n["inner"][1]))))
+        if slots != [(["node_comms"], "0", ["intranode"]), (["node_comms"], "1", ["internode"])]:
+            raise c2g.Unsupported("attach: attribute slots %s" % slots)
+        rest = [n for n in body if n is not reg[0] and n not in stores and n.get("kind") != "DeclStmt"]
+        EFF = ("sc_MPI_Comm_size", "MPI_Comm_size", "sc_MPI_Comm_rank", "MPI_Comm_rank", "sc_MPI_Comm_split_type", "MPI_Comm_split_type", "sc_MPI_Allreduce",
+               "MPI_Allreduce", "sc_MPI_Comm_free", "MPI_Comm_free", "sc_MPI_Comm_split", "MPI_Comm_split", "sc_MPI_Alloc_mem", "MPI_Alloc_mem",
+               "sc_MPI_Comm_set_attr", "MPI_Comm_set_attr")
+        t, i = sl.emit_block(rest, "attach_decisions", ["MPI_Comm_split_type_called", "MPI_Comm_free_called", "MPI_Comm_split_called", "MPI_Comm_split2_called",
+                                                        "MPI_Comm_split3_called", "MPI_Alloc_mem_called", "MPI_Comm_set_attr_called", "MPI_Comm_set_attr_arg0"], A,
+                             params=("processes_per_node", "maxintrasize", "minintrasize", "comm"), effect_called=True, effects=EFF,
+                             drop_calls=("sc_mpi_check", "sc_log", "sc_logf"), want_params=None, ret="_void",
+                             comment="returns (MPI_Comm_split_type called, MPI_Comm_free called, the internode MPI_Comm_split of the split_type branch called, "
+                                     "the two MPI_Comm_split of the explicit branch called, MPI_Alloc_mem called, MPI_Comm_set_attr called, its communicator)")
+        extra = [p for p in i["params"][4:] if not (p.endswith("_ret") or p in ("rank", "intranode", "internode", "intrarank", "sc_mpi_node_comm_keyval", "node_comms"))]
+        if i["params"][:4] != ["processes_per_node", "maxintrasize", "minintrasize", "comm"] or extra:
+            raise c2g.Unsupported("attach_decisions: parameters %s" % i["params"])
         g.add(t, i)
 
         # ---- write_start / write_end per flavour
